@@ -730,7 +730,10 @@ def run(w: Workload):
               "re-decoration); forms: 5 tags with hand-written long paths x every suffix form (long/partially long/short) x "
               "letter-case variants x faulty tails (invalid characters in value and extension, invalid extension, extra "
               "slashes/blanks, placeholder, mistyped path nodes), plain and namespace-prefixed, through the string, sidecar and "
-              "table entry points: the fragment the message quotes must equal source_text[char_index:char_index_end]")
+              "table entry points: the fragment the message quotes must equal source_text[char_index:char_index_end]; "
+              "order: sidecars with columns alpha/beta/gamma x every assignment of fault kinds found at different stages "
+              "(per string, whole string, column level, definition collection, structure) and 4-row tables x every arrangement "
+              "of row-level and temporal faults: the returned list is in (file, column, key, row) order")
     texts = pool(w)
     for t in texts:
         run_string(w, t)
@@ -843,6 +846,38 @@ def run(w: Workload):
     w.part("forms: table entry point", cases=w.evaluations - before, bound="the faulty tags (quick: every second of the "
            "declared/alternating-case ones) in chunks of 6 rows of the HED column, with/without a long-form sidecar and an "
            "onset column; every third table namespace-prefixed", exhaustive=False)
+    # order of the RETURNED list
+    before = w.evaluations
+    fam = list(order_sidecars(w.quick))
+    for kinds, names, sc in fam:
+        run_sidecar(w, sc)
+    n_sc = w.evaluations - before
+    tabs = list(order_tables(w.quick))
+    for k, (kinds, rows, onsets) in enumerate(tabs):
+        run_table(w, rows, ORDER_TABLE_SIDECAR, onsets)
+        if k % 4 == 0:
+            run_table(w, rows, ORDER_TABLE_SIDECAR, None)
+    n_tb = w.evaluations - before - n_sc
+    step = max(1, len(fam) // (6 if w.quick else 40))
+    for k, (kinds, names, sc) in enumerate(fam[::step]):
+        files = {}
+        for j, sub in enumerate(("sub-01", "sub-02")):
+            _, rows, onsets = tabs[(2 * k + j) % len(tabs)]
+            lines = ["onset\tduration\tcond\tHED"] + ["%s\tn/a\t%s\t%s" % (o, c, h)
+                                                       for o, c, h in zip(onsets, rows["cond"], rows["HED"])]
+            files[sub] = "\n".join(lines) + "\n"
+        full = dict(sc, **copy.deepcopy(ORDER_TABLE_SIDECAR))
+        validate_dataset(w, {"entry": "dataset_layout", "sidecar": full, "files": files}, full, files, True,
+                         ("dataset_layout", json.dumps(full), json.dumps(files)))
+    w.part("order of the returned list", cases=w.evaluations - before,
+           bound="%d sidecars: columns alpha/beta/gamma in every permutation of which has which fault kind (%d per-string / "
+                 "value / whole-string / column-level misplaced-definition / definition-collection kinds%s, and the 16 ordered "
+                 "pairs of 4 structure/reference kinds), category keys listed out of order, warnings on and off; %d tables: "
+                 "every arrangement over 4 rows of row-level faults and faults found by the temporal pass, onsets ordered and "
+                 "unordered; %d datasets combining them; returned lists checked: %d (%d with more than one sort key)"
+                 % (n_sc, len(ORDER_KINDS) - 1, ": every pair + a clean column" if w.quick else " + clean: every ordered triple",
+                    n_tb, w.evaluations - before - n_sc - n_tb, _count["returned_lists"], _count["returned_multi_key"]),
+           exhaustive=False)
     # one big cross-file sort
     for k in range(5):
         perm = list(_pool_for_sort)
@@ -855,7 +890,8 @@ def run(w: Workload):
     w.part("monitor totals", cases=_count["issues"], bound="issues monitored: %(issues)d, with offsets: %(with_offsets)d, "
            "with sub-tag span: %(sub_tag)d, of these judged for quoting exactly source_text[char_index:char_index_end] next "
            "to the tag as written: %(quoted)d (+ %(quoted_no_offsets)d through index_in_tag alone), lists sorted: "
-           "%(sorted_lists)d" % _count, exhaustive=False)
+           "%(sorted_lists)d; whole-tag/group issues judged for quoting the located text: %(whole)d (groups: %(whole_group)d)"
+           % _count, exhaustive=False)
     if _raised:
         w.part("entry point raised instead of returning issues (not judged by C12)", cases=len(_raised),
                bound=json.dumps(_raised[:3])[:900], exhaustive=False)
@@ -893,6 +929,9 @@ def replay(w: Workload, case: dict):
         run_table(w, inp["rows"], inp.get("sidecar"), on if on else None, count=False, version=ver)
     elif e == "dataset":
         run_dataset(w, inp["strings"], count=False)
+    elif e == "dataset_layout":
+        validate_dataset(w, {k: v for k, v in inp.items() if k in ("entry", "sidecar", "files")}, inp["sidecar"], inp["files"],
+                         False, None)
     else:
         print("sort cases are regenerated by the full run only")
     w.failures = [f for f in w.failures if f["clause"] == case["clause"]]
